@@ -144,6 +144,11 @@ func c16RunFunc(b core.Batch, r *core.Recorder) {
 	// ---- byte sizes and durations (Parse, String, JSON)
 	for i := 0; i < n/2; i++ {
 		s := []string{"10G", "500M", "1B", "0K", "9223372036854775807B", "8388608T", "K", "10", "", "1.5G", "-1K", "10KB"}[rng.IntN(12)]
+		if i%3 == 0 {
+			// powers of 1024 (and neighbours) times each unit: exact multiples of every unit up to and beyond the largest
+			pw := int64(1) << uint(10*rng.IntN(7))
+			s = fmt.Sprintf("%d%c", pw*[]int64{1, 2, 3, 1023, 1024, 1025}[rng.IntN(6)]+int64(rng.IntN(3)-1), "BKMGT"[rng.IntN(5)])
+		}
 		for m := rng.IntN(3); m > 0; m-- {
 			s = c16mutate(rng, s)
 		}
@@ -152,6 +157,7 @@ func c16RunFunc(b core.Batch, r *core.Recorder) {
 				_ = v.String()
 				v.ToString('Q')
 				_ = v.FindLargestFittingUnit()
+				json.Marshal(v)
 			}
 			var v bytesize.ByteSize
 			js, _ := json.Marshal(s)
@@ -240,7 +246,7 @@ func c16RunFunc(b core.Batch, r *core.Recorder) {
 	}
 	renewLive()
 	defer func() { liveCache.Destroy() }()
-	jsonVals := []string{"null", "0", "-1", "1e400", "true", "\"\"", "\"x\"", "[]", "{}", "\"0B\"", "\"0s\"", "\"-1h\"", "99999999999999999999", "\"99999999999999999999T\"", "{\"a\":{\"b\":null}}"}
+	jsonVals := []string{"null", "0", "-1", "1e400", "true", "\"\"", "\"x\"", "[]", "{}", "\"0B\"", "\"0s\"", "\"-1h\"", "99999999999999999999", "\"99999999999999999999T\"", "{\"a\":{\"b\":null}}", "{\"\":1}", "{\"\":{\"\":null}}", "{\"value\":1,\"onChange\":{},\"requiresRestart\":true}", "{\"-\":1}"}
 	for i := 0; i < min(n/10, 2000); i++ {
 		doc := string(def)
 		switch rng.IntN(3) {
